@@ -190,7 +190,10 @@ InputDesc(P, name) == CHOOSE d \in ToSet(P.inputs) : d.name = name
 
 \* canonical representative of an input whose type allows reordering / duplication: the
 \* denotation is a function of the bag (NoOrder) or of the set (NoOrder + AtLeastOnce) only
-Canon(d, s) == IF d.dup THEN SortItems(d.ity, SetToSeq(ToSet(s)))
+\* (TotalOrder + AtLeastOnce: an element may be re-delivered right after itself -- the
+\* representative has the immediate repetitions removed)
+Canon(d, s) == IF d.dup /\ d.ord = "none" THEN SortItems(d.ity, SetToSeq(ToSet(s)))
+               ELSE IF d.dup THEN SelIdx(s, LAMBDA i : i = 1 \/ s[i] # s[i - 1])
                ELSE IF d.ord = "none" THEN SortItems(d.ity, s)
                ELSE s
 
